@@ -124,7 +124,7 @@ impl WriteAheadLog {
             } else {
                 let new_pos = self.file.stream_position()?;
 
-                if new_pos > size {
+                if new_pos > size || new_pos < pos + 2 * u64::serialized_size_static() {
                     #[cfg(agdb_verif)]
                     crate::verif::fs_event(crate::verif::FsEvent::WalSetLen(pos));
                     self.file.set_len(pos)?;
